@@ -6,11 +6,17 @@ use super::ast::*;
 use super::lexer::{Lexer, Token, TokenKind};
 use grafeo_common::utils::error::{QueryError, QueryErrorKind, Result};
 
+/// Maximum nesting depth (parentheses, lists, maps, NOT, unary minus, sub-patterns, ...) the
+/// parser accepts.
+const MAX_NESTING_DEPTH: usize = 128;
+
 /// Cypher query parser.
 pub struct Parser<'a> {
     lexer: Lexer<'a>,
     current: Token,
     previous: Token,
+    /// Current nesting depth, see [`MAX_NESTING_DEPTH`].
+    depth: usize,
 }
 
 impl<'a> Parser<'a> {
@@ -27,6 +33,7 @@ impl<'a> Parser<'a> {
             lexer,
             current,
             previous,
+            depth: 0,
         }
     }
 
@@ -751,6 +758,10 @@ impl<'a> Parser<'a> {
     }
 
     fn parse_not_expression(&mut self) -> Result<Expression> {
+        self.nested(Self::parse_not_expression_inner)
+    }
+
+    fn parse_not_expression_inner(&mut self) -> Result<Expression> {
         if self.current.kind == TokenKind::Not {
             self.advance();
             let operand = self.parse_not_expression()?;
@@ -886,6 +897,10 @@ impl<'a> Parser<'a> {
     }
 
     fn parse_power_expression(&mut self) -> Result<Expression> {
+        self.nested(Self::parse_power_expression_inner)
+    }
+
+    fn parse_power_expression_inner(&mut self) -> Result<Expression> {
         let mut left = self.parse_unary_expression()?;
 
         if self.current.kind == TokenKind::Caret {
@@ -902,6 +917,10 @@ impl<'a> Parser<'a> {
     }
 
     fn parse_unary_expression(&mut self) -> Result<Expression> {
+        self.nested(Self::parse_unary_expression_inner)
+    }
+
+    fn parse_unary_expression_inner(&mut self) -> Result<Expression> {
         match self.current.kind {
             TokenKind::Minus => {
                 self.advance();
@@ -1205,6 +1224,19 @@ impl<'a> Parser<'a> {
         let kind = token.kind;
         self.lexer = saved_pos;
         kind
+    }
+
+    /// Runs `f` one nesting level deeper.  Input nested more than [`MAX_NESTING_DEPTH`] levels is
+    /// rejected with a syntax error: the parser is a recursive descent and would otherwise
+    /// overflow the stack (which aborts the process) on a few KB of `((((...`.
+    fn nested<T>(&mut self, f: impl FnOnce(&mut Self) -> Result<T>) -> Result<T> {
+        if self.depth >= MAX_NESTING_DEPTH {
+            return Err(self.error("query is nested too deeply"));
+        }
+        self.depth += 1;
+        let result = f(self);
+        self.depth -= 1;
+        result
     }
 
     fn error(&self, message: &str) -> grafeo_common::utils::error::Error {
